@@ -104,7 +104,9 @@ pub fn header_line(rng: &mut Rng, wild: bool) -> Vec<u8> {
         let i = rng.below(REC_NAMES.len());
         (case_pattern(rng, REC_NAMES[i]), values_for(i))
     } else {
-        (rng.pick(&CUSTOM_NAMES).to_string(), &OTHER_VALUES)
+        // custom names also occur in other letter cases: they are DIFFERENT fields (only recognised names fold case)
+        let n = rng.pick(&CUSTOM_NAMES).to_string();
+        (if rng.chance(1, 2) { case_pattern(rng, &n) } else { n }, &OTHER_VALUES)
     };
     // one of the four paddings is, now and then, a control / zero-width character that is not whitespace
     let odd = if wild && rng.chance(1, 8) { rng.below(4) } else { 9 };
